@@ -1095,7 +1095,19 @@ fn main() {
         let rp = if v.get("replay").is_some() { v["replay"].clone() } else { v.clone() };
         let seed = rp["case_seed"].as_u64().unwrap_or(1);
         match rp["part"].as_str().unwrap_or("") {
-            "seq" => seq_case(seed, &mut total),
+            "seq" => {
+                // sequential programs are deterministic except for delete_node's internal rayon path
+                for _ in 0..args.extra_u64("replay-tries", 300).min(50) {
+                    let mut r = Report::new();
+                    seq_case(seed, &mut r);
+                    let hit = r.violations_total > 0;
+                    total.merge(r);
+                    total.count("replay_attempts", 1);
+                    if hit {
+                        break;
+                    }
+                }
+            }
             "det" => det_case(seed, rp["scenario"].as_u64().map(|x| x as usize), &mut total),
             _ => {
                 // a stress round is a workload, not a schedule: repeat it until it shows the violation again
